@@ -5,9 +5,10 @@ from .util import call, LETTERS
 
 ID = 'C15'
 LEAN_MODULE = 'KernProofs.C15'
-EXTRA_MODULES = ['KernProofs.C15Doc']
+EXTRA_MODULES = ['KernProofs.C15Doc', 'KernProofs.C15Round']
 THEOREMS = ['KM.C15.C15_links_kept', 'KM.C15.C15_non_notes_unchanged', 'KM.C15.mapM_pd', 'KM.C15.C15_note', 'KM.C15.C15_pitch_is_C09', 'KM.C15.C15_bad_arguments', 'KM.C15.C15_source_is_modified', 'KM.C15.C15_accidental_not_merged', 'KM.C15.C15_chords_not_transposed',
-            'KM.C15D.nodeStep_skel', 'KM.C15D.nodeStep_tok', 'KM.C15D.C15_same_skeleton', 'KM.C15D.C15_export']
+            'KM.C15D.nodeStep_skel', 'KM.C15D.nodeStep_tok', 'KM.C15D.C15_same_skeleton', 'KM.C15D.C15_export',
+            'KM.C15R.transpose_back', 'KM.C15R.subStep_back', 'KM.C15R.transposeTok_back', 'KM.C15R.nodeStep_back', 'KM.C15R.rows_back', 'KM.C15R.C15_roundtrip']
 FINGERPRINTS = ['document.Document', 'transposer.transpose', 'pitch_models.AgnosticPitch', 'pitch_models.HumdrumPitchExporter.export_pitch',
                 'pitch_models.HumdrumPitchImporter._parse_pitch', 'tokens.NoteRestToken.export']
 RULE = ('core stream: generated documents whose notes are single notes without explicit accidental (all spine types, splits, comments; quick 12 / '
@@ -60,6 +61,12 @@ def explore(ctx, depth):
                 specs = [next(resp) for _ in notes]
                 inp = {'text': text, 'interval': n, 'direction': d}
                 src, _ = kp.loads(text)          # a fresh import for every call (the call is known to modify its source)
+                if rng.random() < 0.6:
+                    # the source has been read before it is transposed: exported in every encoding (read-only calls; whatever they leave behind in
+                    # the tree must not reach the result - added after seeded change C15_r5_2, a per-node cache of the agnostic text)
+                    from kernpy.core.tokenizers import Encoding as _Enc
+                    for e_ in _Enc:
+                        call(lambda: kp.dumps(src, encoding=e_))
                 d_rt = ''.join(list(d))          # equal to 'up' / 'down', built at run time (not the interned literal)
                 def run():
                     t = src.to_transposed(n, d_rt)
